@@ -159,6 +159,30 @@ def run_case(c):
     r["names"] = [tr.name for tr in comp.tracks]
     r["instrs"] = [("" if tr.instrument is None else str(tr.instrument.name)) for tr in comp.tracks]
     R.append(r)
+    # the same program with the first and last note of every chord exchanged by item assignment (a container keeps the order it
+    # is given that way): the export follows the container as stored
+    if any(len(e["notes"]) >= 2 for t in p["tracks"] for b in t["bars"] for e in b["entries"]):
+        import copy as _copy
+        from mingus.containers import Note as _Note
+        p3 = _copy.deepcopy(p)
+        comp3 = mk_composition(p)
+        if built_ok(p, comp3):
+            for t3, tr3 in zip(p3["tracks"], comp3.tracks):
+                for b3, bar3 in zip(t3["bars"], tr3.bars):
+                    for e3, ent3 in zip(b3["entries"], bar3.bar):
+                        if len(e3["notes"]) >= 2:
+                            nc3 = ent3[2]
+                            lo, hi = _Note(nc3[0]), _Note(nc3[len(nc3) - 1])
+                            nc3[0] = hi
+                            nc3[len(nc3) - 1] = lo
+                            e3["notes"][0], e3["notes"][-1] = e3["notes"][-1], e3["notes"][0]
+            r = call("xml_composition", {"chords": "first and last note exchanged"}, lambda: parse_xml(musicxml.from_Composition(comp3)))
+            r["prog"] = p3
+            r["xml"] = r["out"] if r["ok"] else {}
+            r["out"] = 0
+            r["names"] = [tr.name for tr in comp3.tracks]
+            r["instrs"] = [("" if tr.instrument is None else str(tr.instrument.name)) for tr in comp3.tracks]
+            R.append(r)
     # the same program with its rests held as empty NoteContainers instead of None
     if any(e["rest"] for t in p["tracks"] for b in t["bars"] for e in b["entries"]):
         from . import program as _pg
